@@ -3,6 +3,7 @@ import JxlModel.Driver.Enc
 import JxlModel.Driver.C10
 import JxlModel.Driver.C02
 import JxlModel.Driver.C19
+import JxlModel.Driver.C17
 
 def main (args : List String) : IO UInt32 := do
   match args with
@@ -12,4 +13,5 @@ def main (args : List String) : IO UInt32 := do
   | ["c02"] => Jxl.Driver.C02.main .checked; return 0
   | ["c02", "wrapping"] => Jxl.Driver.C02.main .wrapping; return 0
   | ["c19"] => Jxl.Driver.C19.main; return 0
+  | ["c17"] => Jxl.Driver.C17.main; return 0
   | _ => IO.eprintln "usage: jxlmodel <component>"; return 2
